@@ -398,6 +398,9 @@ structure Facts where
   chronContinuesAfterError : Tri
   /-- `Write` reports a refused entry to its caller -/
   chronSurfacesError : Tri
+  /-- the API layer (gateway `isValidKey`) refuses empty and > 65535-byte keys with an error before a
+      treasure is created, so that no unencodable key can reach `Write` through the API -/
+  apiValidatesKeys : Tri
   deriving Repr
 
 def cfgOf (f : Facts) : Cfg :=
@@ -407,7 +410,7 @@ def cfgOf (f : Facts) : Cfg :=
     flushGe := f.flushCmp != .gt
     flushAtCount := f.flushAtCount.isYes
     deleteRemoves := f.deleteRemoves.isYes
-    chronSurfacesError := f.chronSurfacesError.isYes }
+    chronSurfacesError := f.chronSurfacesError.isYes || f.apiValidatesKeys.isYes }
 
 /-- the model's fixed layout is the code's layout -/
 def layoutOk (f : Facts) : Bool :=
@@ -418,14 +421,15 @@ def layoutOk (f : Facts) : Bool :=
 
 def hasUnknown (f : Facts) : Bool :=
   f.rejectsEmptyKey == .unknown || f.rejectsLongKey == .unknown || f.flushCmp == .unknown ||
-  f.flushAtCount == .unknown || f.deleteRemoves == .unknown || f.chronSurfacesError == .unknown
+  f.flushAtCount == .unknown || f.deleteRemoves == .unknown ||
+  (f.chronSurfacesError != .yes && f.apiValidatesKeys != .yes && (f.chronSurfacesError == .unknown || f.apiValidatesKeys == .unknown))
 
 def findings (f : Facts) : List String :=
   (if f.rejectsEmptyKey == .no then ["C01-empty-key-accepted"] else []) ++
   (if f.rejectsLongKey == .no then ["C01-long-key-accepted"] else []) ++
   (if f.deleteRemoves == .no then ["C01-delete-not-replayed"] else []) ++
   (if f.flushAtCount == .no then ["C01-block-entry-count-overflow"] else []) ++
-  (if f.chronSurfacesError == .no then ["C01-chronicler-drops-refused-entry"] else [])
+  (if f.chronSurfacesError == .no && f.apiValidatesKeys == .no then ["C01-chronicler-drops-refused-entry"] else [])
 
 def classify (f : Facts) : Verdict :=
   if !layoutOk f then .undetermined "storage layout facts (field widths / flush order / metadata handling / per-entry flush in WriteEntries and compaction / scan-to-EOF) differ from the model"
@@ -459,10 +463,12 @@ theorem classify_sound (f : Facts) : (classify f).Sound (Holds (cfgOf f)) (Parti
             · exact not_holds_of_noDelete _ (by simp [cfgOf, h3, Tri.isYes])
             · by_cases h4 : f.flushAtCount = .no
               · exact not_holds_of_noCountFlush _ (by simp [cfgOf, h4, Tri.isYes])
-              · by_cases h5 : f.chronSurfacesError = .no
-                · exact not_holds_of_silentDrop _ (by simp [cfgOf, h5, Tri.isYes])
+              · by_cases h5 : f.chronSurfacesError = .no ∧ f.apiValidatesKeys = .no
+                · exact not_holds_of_silentDrop _ (by simp [cfgOf, h5.1, h5.2, Tri.isYes])
                 · exfalso
-                  simp [findings, h1, h2, h3, h4, h5] at hf
+                  have : ¬ (f.chronSurfacesError = .no ∧ f.apiValidatesKeys = .no) := h5
+                  simp [findings, h1, h2, h3, h4] at hf
+                  exact this hf
       · rename_i hf
         have h1 : f.rejectsEmptyKey = .yes := by
           cases h : f.rejectsEmptyKey <;> simp_all [findings]
@@ -472,9 +478,9 @@ theorem classify_sound (f : Facts) : (classify f).Sound (Holds (cfgOf f)) (Parti
           cases h : f.deleteRemoves <;> simp_all [findings]
         have h4 : f.flushAtCount = .yes := by
           cases h : f.flushAtCount <;> simp_all [findings]
-        have h5 : f.chronSurfacesError = .yes := by
-          cases h : f.chronSurfacesError <;> simp_all [findings]
+        have h5 : (f.chronSurfacesError.isYes || f.apiValidatesKeys.isYes) = true := by
+          cases ha : f.chronSurfacesError <;> cases hb : f.apiValidatesKeys <;> simp_all [findings, Tri.isYes]
         exact holds_of_good _ ⟨by simp [cfgOf, h1, Tri.isYes], by simp [cfgOf, h2, Tri.isYes],
-          by simp [cfgOf, h3, Tri.isYes], by simp [cfgOf, h4, Tri.isYes], by simp [cfgOf, h5, Tri.isYes]⟩
+          by simp [cfgOf, h3, Tri.isYes], by simp [cfgOf, h4, Tri.isYes], by simpa [cfgOf] using h5⟩
 
 end Hv.C01
